@@ -2771,6 +2771,15 @@ class Summaries:
                 return b
             if isinstance(b, StrV) and b.known == '' and isinstance(a, StrV):
                 return a
+
+            def _ne(x):
+                return isinstance(x, StrV) and ((x.known or '') != '' or (x.oid and ctx.st.vn.get(('nonempty', x.oid))))
+            if _ne(a) or _ne(b):
+                nv = StrV(None, oid=next(_c), prov=('concat', a.key() if isinstance(a, V) else None, b.key() if isinstance(b, V) else None))
+                ctx.st.vn[('nonempty', nv.oid)] = True
+                if isinstance(a, StrV) and (a.known or '') != '':
+                    ctx.st.vn[('firstchar', nv.oid)] = CharV(a.known[0])
+                return nv
             return StrV(None, oid=next(_c), prov=('concat', a.key() if isinstance(a, V) else None, b.key() if isinstance(b, V) else None))
 
         @reg('core::str::<impl str>::chars')
@@ -2818,6 +2827,37 @@ class Summaries:
             n = sval(ctx, ctx.args[1])
             rty = ctx.ret_ty
             pre = ctx.callee.endswith('strip_prefix')
+            pat = ctx.args[1]
+            if isinstance(pat, ClosureV) and isinstance(h, StrV) and pre:
+                # a predicate on the first character (`strip_prefix(|c: char| ..)`)
+                if h.known is not None:
+                    if h.known == '':
+                        return none(rty)
+                    rs = eng.call_value(ctx.st, pat, [CharV(h.known[0])], ctx.depth, ctx.fr, ctx.bi)
+                    out = []
+                    for (s2, r) in rs:
+                        t_ = eng.eval_bool(s2, r) if isinstance(r, BoolV) else None
+                        out.append((s2, some(rty, StrV(h.known[1:], prov=('collect',))) if t_ is True else none(rty) if t_ is False else
+                                    opt_either(rty, StrV(None, oid=next(_c), prov=('strip', h.known)))))
+                    return out
+                s2 = ctx.st.fork()
+                rs = eng.call_value(s2, pat, [CharV(None, next(_c))], ctx.depth, ctx.fr, ctx.bi)
+                ts = [eng.eval_bool(s3, r) if isinstance(r, BoolV) else None for (s3, r) in rs]
+                if ts and all(t_ is True for t_ in ts):
+                    # whatever the first character is, it is dropped: the rest is `chars().skip(1).collect()`
+                    it2 = IterV('chars', 'std::str::Chars', (h,), ops=(('skip', NumV(None, 1, 'usize')),), iid=next(_c))
+                    c2 = type(ctx)(ctx.eng, ctx.st, ctx.fr, ctx.bi, dict(ctx.t, dest=dict(ctx.t['dest'], ty='std::string::String')), ctx.fn,
+                                   'std::iter::Iterator::collect', [it2], ctx.depth)
+                    tail = self.table['std::iter::Iterator::collect'](c2)
+                    if isinstance(tail, list):
+                        tail = tail[0][1]
+                    if h.oid is not None and ctx.st.vn.get(('nonempty', h.oid)):
+                        return some(rty, tail)
+                    s4 = ctx.st.fork()
+                    return [(ctx.st, some(rty, tail)), (s4, none(rty))]
+                if ts and all(t_ is False for t_ in ts):
+                    return none(rty)
+                return opt_either(rty, StrV(None, oid=next(_c), prov=('strip', h.key())))
             if isinstance(n, CharV) and n.known is not None:
                 n = StrV(n.known)
             if not (isinstance(h, StrV) and isinstance(n, StrV) and n.known is not None):
